@@ -37,8 +37,10 @@ pub fn start_watchdog(hang_path: String) {
         if st != 0 && now_ms().saturating_sub(st) > HANG_MS {
             let ms = now_ms() - st;
             if let Some((base, mode, what, input)) = CUR.lock().ok().and_then(|g| g.clone()) {
+                // what the execution had requested from the allocator when it was ended
+                let (peak, maxreq, _) = alloc::window();
                 let ev = json!({"e":"case","base":base,"mode":mode,"what":what,"n":input.len(),"status":"hang","site":"",
-                    "ops":0,"bytes":0,"budget_hit":false,"slow_ms":ms.min(SAT),"peak":0,"maxreq":0,"input":bytes_val(&input),
+                    "ops":0,"bytes":0,"budget_hit":false,"slow_ms":ms.min(SAT),"peak":peak.min(SAT),"maxreq":maxreq.min(SAT),"input":bytes_val(&input),
                     "digest":digest(&input).iter().map(|x| format!("{:02x}", x)).collect::<String>()});
                 let _ = std::fs::write(&hang_path, serde_json::to_vec(&ev).unwrap_or_default());
             }
